@@ -168,6 +168,26 @@ def build(keycols, keydts, n, li):
     return U.frame_from_blocks(blocks, n, index=LABELS[:n], columns=names, name='fn'), names, sig
 
 
+def apply_forms(ctx, tag, mk_items, mk_values, measure, items, info):
+    """every apply form over groups: one result per group, labelled by its key, in group order.  `items` is the (key, group) list of the items form."""
+    kk = lambda k: pykey(tuple(k) if isinstance(k, (list, np.ndarray)) else k)
+    exp = [(kk(k), measure(g)) for k, g in items]
+    try:
+        forms = {
+            'items.apply': [(kk(k), int(v)) for k, v in zip(list(mk_items().apply(lambda k, g: measure(g)).index), mk_items().apply(lambda k, g: measure(g)).values.tolist())],
+            'values.apply': [(kk(k), int(v)) for k, v in zip(list(mk_values().apply(measure).index), mk_values().apply(measure).values.tolist())],
+            'values.apply_iter': list(zip([e[0] for e in exp], [int(v) for v in mk_values().apply_iter(measure)])),
+            'values.apply_iter_items': [(kk(k), int(v)) for k, v in mk_values().apply_iter_items(measure)],
+            'items.apply_iter_items': [(kk(k), int(v)) for k, v in mk_items().apply_iter_items(lambda k, g: measure(g))],
+        }
+    except Exception as e:
+        ctx.violation(f'{tag}.apply-forms|raises|{type(e).__name__}', **info, error=repr(e))
+        return
+    for name, got in forms.items():
+        if got != exp:
+            ctx.violation(f'{tag}.{name}|one-result-per-group-labelled-by-key', **info, got=got, expected=exp)
+
+
 def run_series_group(case, ctx):
     _, alpha, n = case
     labels = LABELS[:n]
@@ -194,6 +214,7 @@ def run_series_group(case, ctx):
             got = {pykey(k): int(v) for k, v in zip(ap.index.values.tolist(), ap.values.tolist())}
             if got != exp:
                 ctx.violation('series.iter_group_items.apply', **info, got=got, expected=exp)
+            apply_forms(ctx, 'series.iter_group', s.iter_group_items, s.iter_group, len, items, info)
         ctx.outcome('series_group')
     ctx.sample({'family': 'series_group', 'alphabet': alpha, 'n': n}, limit=1)
 
@@ -261,6 +282,8 @@ def run_frame_group(case, ctx):
                     ctx.violation(f'frame.iter_group_items.apply|axis={axis}|nk={nk}', **info, got=got, expected=exp)
             except Exception as e:
                 ctx.violation(f'frame.iter_group_items.apply|raises|{type(e).__name__}|nk={nk}', **info, error=repr(e))
+            apply_forms(ctx, f'frame.iter_group|axis={axis}|nk={nk}', lambda: f.iter_group_items(label, axis=axis), lambda: f.iter_group(label, axis=axis),
+                        lambda g: g.shape[axis], items, info)
         ctx.outcome(fam)
     ctx.sample({'family': fam, 'alphabets': alphas, 'n': n, 'layout': li, 'axis': axis}, limit=1)
 
@@ -297,7 +320,11 @@ def run_label_group(case, ctx):
                 items = list(f.iter_group_labels_items(depth))
                 check_partition(ctx, f'frame.iter_group_labels_items|depth={depth}', items, keys, list(tuples), rows,
                                 lambda g: [tuple(t) for t in g.index], frame_rows, info)
+                if n:
+                    apply_forms(ctx, f'frame.iter_group_labels|depth={depth}', lambda: f.iter_group_labels_items(depth), lambda: f.iter_group_labels(depth), len, items, info)
                 items = list(s.iter_group_labels_items(depth))
+                if n:
+                    apply_forms(ctx, f'series.iter_group_labels|depth={depth}', lambda: s.iter_group_labels_items(depth), lambda: s.iter_group_labels(depth), len, items, info)
                 check_partition(ctx, f'series.iter_group_labels_items|depth={depth}', items, keys, list(tuples), [(norm(i),) for i in range(n)],
                                 lambda g: [tuple(t) for t in g.index], lambda g: [(norm(v),) for v in g.values.tolist()], info)
                 items = list(ft.iter_group_labels_items(depth, axis=1))
